@@ -625,3 +625,61 @@ class real_pttb:
     def on_raise(old, s, a, exc):
         yield "canvas-error-iff-finalized", not is_none(old._widget_info)
         yield "finalized-canvas-unchanged", _unchanged(old, s)
+
+
+# ---- CompositeCanvas.__init__ over the real fields: wrapping shows the wrapped canvas unchanged, leaves the operand
+# unchanged, and shares with it only what no operation under contract ever writes to (the shard list: see the
+# `operand-...-not-written-to` clauses above); coords / shortcuts / children are new objects
+
+
+def _fresh_shortcuts(st, hint):
+    return DRef({} if st.fork(2) == 0 else {"k": "pos"})
+
+
+# a canvas that already has shards (a CompositeCanvas) / a leaf canvas known through rows() and cols() (canvas protocol)
+WRAPPED_CC = Obj(_canvas.CompositeCanvas, dict(shards=SHARDS, coords=S.Custom(_fresh_coords, "coords"), shortcuts=S.Custom(_fresh_shortcuts, "shortcuts"), _widget_info=Opt(Opaque("WidgetInfo"))))
+WRAPPED_LEAF = Obj(_canvas.Canvas, dict(nrows=Nat, ncols=Nat, coords=S.Custom(_fresh_coords, "coords"), shortcuts=S.Custom(_fresh_shortcuts, "shortcuts"), _widget_info=Opt(Opaque("WidgetInfo"))))
+
+
+def _mark_wrapped(st, self_obj, vals):
+    c = vals["canv"]
+    if isinstance(c, Q.SObj):
+        sh = c.fields.get("shards")
+        st.ghost["wrapped"] = _View(dict(obj=c, shards=sh, seq=sh.seq if sh is not None else None, coords=c.fields["coords"], coords_d=dict(c.fields["coords"].d),
+                                         shortcuts=c.fields["shortcuts"], shortcuts_d=dict(c.fields["shortcuts"].d), fields=dict(c.fields)))
+
+
+@contract(CV + "CompositeCanvas.__init__", property=("C02", "C01"), alias="real-fields", inline=("Canvas.__init__",), replayable=False)
+class real_cc_init:
+    self_shape = Obj(_canvas.CompositeCanvas, {})
+    params = dict(canv=Union(Const(None), WRAPPED_CC, WRAPPED_LEAF))
+    raises = ()
+    setup = _mark_wrapped
+
+    def ensures(old, s, a, result):
+        f = s.fields
+        yield "returns-none", result is None
+        yield "not-finalized", f["_widget_info"] is None
+        if a.canv is None:
+            yield "empty", both(isinstance(f["shards"], LRef) and f["shards"].seq == (), f["coords"].d == {}, f["shortcuts"].d == {}, f["children"].seq == ())
+            return
+        w = cur().ghost["wrapped"]
+        if w.shards is not None:
+            yield "shows-the-wrapped-canvas", f["shards"] is w.shards  # the very shard list: same rows, same columns, same content
+            rows, cols = rows_of(w.shards), cols_of(w.shards)
+        else:
+            rows, cols = a.canv.nrows, a.canv.ncols
+            sh = f["shards"]
+            one = isinstance(sh, LRef) and isinstance(sh.seq, tuple) and len(sh.seq) == 1 and isinstance(sh.seq[0][1].seq, tuple) and len(sh.seq[0][1].seq) == 1
+            yield "one-shard-with-one-cview", one
+            cv = sh.seq[0][1].seq[0]
+            yield "shows-the-whole-wrapped-canvas", both(sh.seq[0][0] == rows, cv[0] == 0, cv[1] == 0, cv[2] == cols, cv[3] == rows, cv[4] is None, cv[5] is a.canv)
+        yield "size", both(rows_of(f["shards"]) == rows, cols_of(f["shards"]) == cols)
+        yield "cursor-and-pop-up-as-in-the-wrapped-canvas", f["coords"].d == w.coords_d
+        yield "coords-are-a-copy", f["coords"] is not w.coords
+        yield "shortcuts-lead-into-the-wrapped-canvas", both(f["shortcuts"] is not w.shortcuts, f["shortcuts"].d == {k: "wrap" for k in w.shortcuts_d})
+        ch = f["children"]
+        yield "the-wrapped-canvas-is-the-only-child", isinstance(ch, LRef) and isinstance(ch.seq, tuple) and len(ch.seq) == 1 and ch.seq[0][:2] == (0, 0) and ch.seq[0][2] is a.canv and ch.seq[0][3] is None
+        # the operand is left as it was: no field assigned, its lists and dicts not written to
+        yield "operand-unchanged", both(all(a.canv.fields.get(k) is v for k, v in w.fields.items()) and len(a.canv.fields) == len(w.fields),
+                                        w.coords.d == w.coords_d, w.shortcuts.d == w.shortcuts_d, w.shards is None or w.shards.seq is w.seq)
